@@ -17,7 +17,7 @@ import Magog.Lemmas.UciFen
       decreased by every tactical move);
     * `TotalApply`              — `applyUciMove` on the UCI string of a generated legal move;
     * `SearchTotal(Iter)`       — the search never panics given `SearchOps`;
-    * `UciFen`                  — the command interpreter with the FEN-legality precondition
+    * `UciFen`                  — the command interpreter over the operations the driver runs
 
     are put together here: `G` is closed under generated accepted moves, every engine operation is total on
     `G`, `SearchOps env G mu` holds for every environment. Headline statements: `Props/C18Total.lean`,
@@ -33,9 +33,10 @@ theorem G_eq_goodPos : G = UciTotal.GoodPos := rfl
 
 theorem G_start : G startPosition := ⟨inv_startPosition, Props.C02.oppSafe_start⟩
 
-/-- a loaded FEN position is good as soon as the side not to move is not in check -/
-theorem G_of_fen {s : Bytes} {p : Position} (h : parseFen s = .ok (.ok p)) (hS : MM.OppSafe p) : G p :=
-  ⟨Props.C02.fen_inv h, hS⟩
+/-- every position the FEN loader accepts is good: well-formed (C02.fen_inv) and the side not to move is not in
+    check (C08.fen_oppSafe — the loader's own test since the repair of the defect found here) -/
+theorem G_of_fen {s : Bytes} {p : Position} (h : parseFen s = .ok (.ok p)) : G p :=
+  ⟨Props.C02.fen_inv h, Props.C08.fen_oppSafe h⟩
 
 /-- `G` is closed under generated moves accepted by `makeMove` -/
 theorem G_child {p q : Position} {m : Move} (hg : G p) (hG : Generated p m) (h : makeMove p m = .ok (q, true)) :
@@ -110,11 +111,17 @@ theorem searchOps (env : Env) : SearchTotal.SearchOps env G TotalMeasure.mu wher
 
 /-! ### C17: the operations the driver runs -/
 
-/-- all hypotheses of `UciTotal.modelOps_opsTotalF` discharged -/
-theorem modelOps_opsTotalF (blend : Blend) (tostr : Position → M Bytes) :
-    UciTotal.OpsTotalF (modelOps blend tostr) G UciTotal.LegalGen MM.OppSafe :=
-  UciTotal.modelOps_opsTotalF (fun _ hg => evaluate_total hg blend 0)
+/-- all hypotheses of `UciTotal.modelOps_opsTotal` discharged: the operations the driver runs are total on `G`,
+    and `G` holds of the start position, of EVERY position the FEN loader accepts, and after every legal move -/
+theorem modelOps_opsTotal (blend : Blend) (tostr : Position → M Bytes) :
+    UciTotal.OpsTotal (modelOps blend tostr) G UciTotal.LegalGen :=
+  UciTotal.modelOps_opsTotal (fun _ hg => evaluate_total hg blend 0)
     (fun _ _ hg h0 h1 => perftDivide_total Props.C18.killers_empty_size hg h0 h1)
     (fun _ _ hg h0 h1 => tperftDivide_total Props.C18.killers_empty_size hg h0 h1)
+
+/-- the `…F` form (any condition on loaded positions; not needed any more) -/
+theorem modelOps_opsTotalF (blend : Blend) (tostr : Position → M Bytes) (FenOk : Position → Prop) :
+    UciTotal.OpsTotalF (modelOps blend tostr) G UciTotal.LegalGen FenOk :=
+  UciTotal.opsTotalF_of_opsTotal (modelOps_opsTotal blend tostr)
 
 end Magog.Total
